@@ -199,7 +199,28 @@ fn annotation_src(ty: &Type) -> Option<String> {
         } => None,
         Type::Any => None,
         _ if ty.is_no_value() => None,
+        _ if !is_writable(ty) => None,
         _ => Some(ty.to_string()),
+    }
+}
+
+/// Can `ty` be written as a type hint? `Any`, `NoValue` and type
+/// checker errors have no hint syntax, wherever they occur inside
+/// the type (e.g. `List<Any>` or `Fun<(Any), Int>`), and neither
+/// has the type of a generic function (`Fun<(T), T>` would refer to
+/// a type parameter that is not in scope).
+pub(crate) fn is_writable(ty: &Type) -> bool {
+    match ty {
+        Type::Any | Type::Error { .. } => false,
+        Type::Tuple(tys) => tys.iter().all(is_writable),
+        Type::Fun {
+            type_params,
+            params,
+            return_,
+            ..
+        } => type_params.is_empty() && params.iter().all(is_writable) && is_writable(return_),
+        Type::UserDefined { args, .. } => !ty.is_no_value() && args.iter().all(is_writable),
+        Type::TypeParameter(_) => true,
     }
 }
 
